@@ -901,6 +901,7 @@ pub fn formats() -> Vec<FormatDef> {
     vec![
         FormatDef {
             name: "m2",
+            family: "m2",
             entries: &["parse_m2", "M2Model::validate"],
             seeds: m2_seeds,
             drive: m2_drive,
@@ -910,6 +911,7 @@ pub fn formats() -> Vec<FormatDef> {
         },
         FormatDef {
             name: "skin",
+            family: "skin",
             entries: &["parse_skin", "SkinFile accessors"],
             seeds: skin_seeds,
             drive: skin_drive,
@@ -919,6 +921,7 @@ pub fn formats() -> Vec<FormatDef> {
         },
         FormatDef {
             name: "anim",
+            family: "anim",
             entries: &["AnimFile::parse", "AnimFile::validate", "AnimFile::memory_usage"],
             seeds: anim_seeds,
             drive: anim_drive,
